@@ -331,13 +331,25 @@ for _pos, _outs in (('first', ['x.gen', 'm1.gen', 'm2.gen']), ('middle', ['m1.ge
         DUPS['%s-then-multi-%s' % (_second, _pos)] = _text + _step(_outs)
 
 
+# the same duplicates with names the back ends have to escape (the duplicate test must compare
+# what the names denote, not one escaped and one unescaped spelling)
+for _tag, _n in (('space', 'out file.txt'), ('dollar', 'a$b.txt'), ('colon', 'gen:data'),
+                 ('hash', 'x#y.txt'), ('percent', '100%.txt')):
+    DUPS['copy-copy-%s' % _tag] = "copy_file(%r, 'a.c')\ncopy_file(%r, 'b.c')\n" % (_n, _n)
+    DUPS['step-copy-%s' % _tag] = _step([_n]) + "copy_file(%r, 'b.c')\n" % _n
+DUPS['objs-in-spaced-target'] = "executable('my prog', files=['x.c', 'x.cpp'])\n"
+DUPS['objs-in-spaced-srcdir'] = "executable('prog', files=['my dir/x.c', 'my dir/x.cpp'])\n"
+DUPS['objs-in-dollar-target'] = "executable('my$prog', files=['x.c', 'x.cpp'])\n"
+
+
 def run_dup(case, res):
     backend = case['backend']
     root = core.mkscratch('c05d')
     try:
         src, bld = os.path.join(root, 'src'), os.path.join(root, 'bld')
         proj.write_tree(src, {'build.bfg': DUPS[case['flavour']], 'a.c': 'int a;\n',
-                              'b.c': 'int b;\n'})
+                              'b.c': 'int b;\n', 'x.c': 'int x;\n', 'x.cpp': 'int xx;\n',
+                              'my dir/x.c': 'int x;\n', 'my dir/x.cpp': 'int xx;\n'})
         env = core.base_env(proj.stub_toolchain_env())
         rc, out = proj.configure(src, bld, backend, env=env)
         res.evaluations = 1
